@@ -319,7 +319,7 @@ pub fn case_strategy() -> impl Strategy<Value = SpawnCase> {
 
 fn worker(ctx: &Ctx) {
     quiet_panics();
-    let n = ctx.tier.pick(150, 5000);
+    let n = ctx.tier.pick(500, 5000);
     ctx.explore("real", "c06", case_strategy(), n, 200, |c, rep| check_case(ctx, c, rep));
 }
 
